@@ -110,7 +110,7 @@ def run_sims(ctx, model, impl, thorough):
         else:
             p = simgen.gen_scope_program(rng, stats)
             add("scope", p, rq, [("main", p)], "sim ((error))")
-    irep = V.run_batch(impl + ["simrun"], ireq, hang_s=3, mem_kb=4_000_000, max_failures=40)
+    irep = V.run_batch(impl + ["simrun"], ireq, hang_s=3, mem_kb=4_000_000, max_failures=12)
     mrep = V.run_batch([model], mreq, hang_s=60)
     counts = {}
     requests = 0
@@ -126,6 +126,8 @@ def run_sims(ctx, model, impl, thorough):
         exp = (mr or "").split()
         for (method, _), w in zip(rq, words):
             st, rs, er, cl, lg = w.split(":")
+            if int(rs) > 3:     # the documented Fastly limit, independent of the constant in the sources
+                ctx.violation("a request was restarted %s times: restarts are limited to three" % rs, replay)
             if kind == "scope" or method == "FASTLYPURGE":
                 key = (kind, "error" if er == "1" else "response")
             elif kind == "skel":
